@@ -113,7 +113,11 @@ FinishContainer ==
     /\ Running /\ IsComposed(TopNode) /\ (IsFn(TopNode) => Top.wait) /\ Top.i > Len(TopNode.ch)
     /\ LET kids == [j \in 1..Len(TopNode.ch) |-> <<TopNode.ch[j][1], Top.ids[j]>>]
        IN CASE TopNode.k = "call" ->
-                 /\ Finish(VObj(Top.p, kids), <<[p |-> Top.p, fn |-> TopNode.fn, args |-> kids]>>)
+                 \* what the target returns: a fresh object, or (recording targets of the harness) None / a fresh empty list
+                 /\ Finish(CASE TopNode.fn = "vmod.recnone" -> VAtom(Atom("n", ""))
+                             [] TopNode.fn = "vmod.reclist" -> VList(<<>>)
+                             [] OTHER -> VObj(Top.p, kids),
+                           <<[p |-> Top.p, fn |-> TopNode.fn, args |-> kids]>>)
                  /\ reqsafe' = Top.rs
             [] TopNode.k = "bind" -> Finish(VPartial(Top.p, kids), <<>>) /\ reqsafe' = Top.rs
             [] IsList(TopNode)    -> Finish(VList(kids), <<>>) /\ UNCHANGED reqsafe
